@@ -7,9 +7,12 @@ import (
 	"strconv"
 	"testing"
 
+	"github.com/bilibili/gengine/builder"
+	"github.com/bilibili/gengine/engine"
 	"pgregory.net/rapid"
 
 	"verif/dsl"
+	"verif/gx"
 	"verif/obs"
 )
 
@@ -20,6 +23,11 @@ type C20Case struct {
 	RuleIdx int          `json:"rule_idx"`
 	Lay     []byte       `json:"lay,omitempty"`
 	Lead    string       `json:"lead,omitempty"` // text before the first rule (blank lines, comments)
+	// Recompile: 1 = the same rules were first installed by a full build from a text with
+	// another layout and line offset, the text under test then arrives as an incremental
+	// build; 2 = the same through a pool (construction, then incremental update). The
+	// installed rule is the one compiled last, so positions refer to the last text.
+	Recompile int `json:"recompile,omitempty"`
 }
 
 var lineRe = regexp.MustCompile(`(?i)\bline\s*:?\s*(-?\d+)`)
@@ -55,7 +63,7 @@ func fillerRule(k int) *dsl.Rule {
 func init() {
 	register(&Prop{
 		ID:   "C20",
-		Rule: "multi-rule, multi-line texts (1-5 rules, line breaks, comments and blank lines between any two tokens) with exactly one faulty construct from the fault catalogue (arithmetic type faults and zero divisors, comparison and logic type faults, failing calls of all three kinds, failing assignments; element-read, forRange, missing-name, non-boolean-condition faults) at a generated place (assignment right-hand side, if / else-if / for condition, for init and step, return, call argument, conc child) under 0-2 enclosing statements (if, else, else-if, for, forRange); oracle: every `line <n>` cited in the error returned for that rule is the 1-based start line of the faulty node or of one of its ancestors up to the enclosing statement; must-cite classes cite at least one. Non-trivial: the faulty construct is not on the first line of its rule and the rule is not the first, or the construct spans >= 2 lines; distinct by case hash",
+		Rule: "multi-rule, multi-line texts (1-5 rules, line breaks, comments and blank lines between any two tokens) with exactly one faulty construct from the fault catalogue (arithmetic type faults and zero divisors, comparison and logic type faults, failing calls of all three kinds, failing assignments; element-read, forRange, missing-name, non-boolean-condition faults) at a generated place (assignment right-hand side, if / else-if / for condition, for init and step, return, call argument, conc child) under 0-2 enclosing statements (if, else, else-if, for, forRange); in 30% of the cases the same rules were installed before from a text with another layout and line offset (full build or pool construction) and the text under test arrives as an incremental build / incremental pool update; oracle: every `line <n>` cited in the error returned for that rule is the 1-based start line of the faulty node or of one of its ancestors up to the enclosing statement; must-cite classes cite at least one. Non-trivial: the faulty construct is not on the first line of its rule and the rule is not the first, or the construct spans >= 2 lines; distinct by case hash",
 		New:  func() interface{} { return &C20Case{} },
 		Gen: func(t *rapid.T) interface{} {
 			c := &C20Case{Prog: genFaultProgram(t, nil)}
@@ -70,6 +78,9 @@ func init() {
 				c.Lay = nil
 			}
 			c.Lead = []string{"", "", "\n", "\n\n\n", "  \n\t\n", "// header comment\n", "\r\n\r\n", " "}[uni(t, "lead", 0, 7)]
+			if pct(t, "recompile", 30) {
+				c.Recompile = uni(t, "recompile_kind", 1, 2)
+			}
 			return c
 		},
 		Check: func(ci interface{}, x *Ctx) {
@@ -92,7 +103,28 @@ func init() {
 				x.Class("text-starts-with-blank-or-comment-lines")
 			}
 			l := &obs.Log{}
-			rb, err := buildDSL(text, faultInject(l))
+			var rb *builder.RuleBuilder
+			var pool *engine.GenginePool
+			var err error
+			switch c.Recompile {
+			case 0:
+				rb, err = buildDSL(text, faultInject(l))
+			default:
+				// an earlier version of the same text: other layout, three more lines in front
+				old, _ := dsl.PrintRulesLead(rules, nil, "// an earlier version\n// of the same rules\n\n")
+				x.Class("same-rules-compiled-before-at-another-line-offset")
+				if c.Recompile == 1 {
+					rb, err = buildDSL(old, faultInject(l))
+					if err == nil {
+						err = rb.BuildRuleWithIncremental(text)
+					}
+				} else {
+					pool, err = engine.NewGenginePool(1, 2, 1, old, faultInject(l))
+					if err == nil {
+						err = pool.UpdatePooledRulesIncremental(text)
+					}
+				}
+			}
 			if err != nil {
 				x.Violation("compile", "generated text was rejected: %v\n%s", err, text)
 				return
@@ -103,7 +135,14 @@ func init() {
 			for _, w := range c.Prog.Wraps {
 				x.Class("inside:" + wrappers[w%len(wrappers)])
 			}
-			_, _, gerr, pan := runOne(rb, "faulty")
+			var gerr error
+			var pan string
+			if pool != nil {
+				res := gx.OnPool(pool, gx.Call{Method: "ExecuteSelectedRules", Names: []string{"faulty"}}, map[string]interface{}{}, nil)
+				gerr, pan = res.Err, res.Panic
+			} else {
+				_, _, gerr, pan = runOne(rb, "faulty")
+			}
 			if pan != "" {
 				// containment is C09's subject; without an error text there is nothing to check here
 				x.Class("panic-no-error-text")
